@@ -26,7 +26,7 @@ theorem varint_ne_nil (n : Nat) : varint n ≠ [] := by
   rw [varint]; split <;> simp
 
 theorem readField_ld (k : Nat) (p rest : Bytes) :
-    readField (ld k p ++ rest) = some ((k, p), rest) := by
+    readField (ld k p ++ rest) = some (some (k, p), rest) := by
   unfold readField ld
   simp only [List.append_assoc, readVarint_varint]
   have h1 : (k * 8 + 2) % 8 = 2 := by omega
